@@ -78,6 +78,7 @@ def checkSqlw : P String := do
   expect "R"
   let status ← next
   let trace ← pTrace
+  let cancelled := (← peek?) == some "CANCEL"
   let o : WriteOpts := { given := hasOpts, ifExists := ifEx, dialect := dia, batchSize := batch, typeMap := tm }
   let fa : Option Nat := if failAt < 0 then none else some failAt.toNat
   let own := entry < 2        -- ToSQL / ToSQLContext own the transaction
@@ -99,7 +100,8 @@ def checkSqlw : P String := do
       | .query text args => t.kind == "Q" && t.text == text && t.args == args
       | .exec s args => t.kind == "E" && t.text == render d s && t.args.length == args.length &&
           (t.args.zip args).all (fun (a, b) => cellApprox a b))
-  if (status == "ok") != mok then corr := s!"fail:status_model={mok}_impl={status}"
+  if cancelled then corr := "ok"
+  else if (status == "ok") != mok then corr := s!"fail:status_model={mok}_impl={status}"
   else if !(mtrace.length == trace.length && (mtrace.zip trace).all (fun (m, t) => callEq m t)) then
     corr := "fail:trace-differs"
   -- ---- C13: every statement lexes to one of the three statement shapes whose identifiers are exactly the
@@ -179,7 +181,7 @@ def checkSqlw : P String := do
             | _ => pure ()
   let ninserts := (trace.filter (fun t => t.kind == "E" && (t.text.take 6 == [73, 78, 83, 69, 82, 84]))).length
   let nontriv := ninserts ≥ 1
-  let kindS := if fa.isSome then "fault" else "plain"
+  let kindS := if cancelled then "cancel" else if fa.isSome then "fault" else "plain"
   pure s!"c11={c11} c12={c12} c13={c13} corr={corr} nontrivial={if nontriv then 1 else 0} st_kind={kindS} st_entry={entry} st_inserts={min ninserts 4} st_status={status}"
 
 /-- `qid` engine: QuoteIdentifier against the model and the independent lexer -/
